@@ -260,7 +260,7 @@ def signed_spend_verdict(form, d, prefix, pos, off, tail, honest, lie, aux, vers
     return got, honest
 
 
-@contract("contracts.c_engine.signed_spend_verdict", gen=_gen_signed, props="C08", n_quick=250, n_thorough=3000,
+@contract("contracts.c_engine.signed_spend_verdict", gen=_gen_signed, props="C08 C04", both_arms=True, n_quick=250, n_thorough=3000,
           rule="single-key CHECKSIG / CHECKSIGVERIFY / CHECKSIGADD spends (tapscript leaf, P2WSH, bare) whose script has 0..5 prefix segments with executed, unexecuted and OP_IF-nested OP_CODESEPARATORs and contracted *VERIFY opcodes; signature by the reference signer over the reference BIP341/BIP143/legacy digest of either the real script code / code-separator position or a wrong one; all sighash types")
 class SignedSpendBounded:
     """accepted exactly when the signature commits to the script code (legacy, BIP143: the script
